@@ -682,6 +682,106 @@ def gen_monitor_cond():
     return f"Definition monitor_update_cond (total_rss_gib max_rss_gib : float) : bool :=\n  {t}."
 
 
+def gen_monitor_ops():
+    """monitor_rss_process / get_peak_memory_gib: the file operations of one update of the peak file, in
+    program order, as a list of the model's writer operations (Model/Monitor.wop), and the names of the
+    files involved.  The guarded block must be: store the new maximum; bind the temporary path (a sibling
+    of the peak file); `with open(tmp, mode="w", ...) as f:` containing exactly f.write(f"{max}\\n"),
+    f.flush(), os.fsync(f.fileno()); then os.replace(tmp, <peak>).  The reader must test and open
+    out_dir / <peak>.  Anything else is a failed translation."""
+    tree = ast.parse((REPO / "bblean/_memory.py").read_text())
+    fn = find_func(tree, "monitor_rss_process")
+    loop = next((n for n in fn.body if isinstance(n, ast.While)), None)
+    if loop is None:
+        raise Unsupported("monitor_rss_process: no polling loop")
+    guards = [st for st in loop.body if isinstance(st, ast.If)
+              and any(isinstance(c, ast.Constant) and isinstance(c.value, str) and "max-rss" in c.value
+                      for c in ast.walk(st))]
+    if len(guards) != 1:
+        raise Unsupported("monitor_rss_process: the peak file is not written under exactly one guard")
+    body = list(guards[0].body)[1:]        # [0] is `max_rss_gib = total_rss_gib` (checked by gen_monitor_cond)
+
+    def sibling(e):
+        """file.parent / "<name>"  ->  name"""
+        if (isinstance(e, ast.BinOp) and isinstance(e.op, ast.Div) and ast.unparse(e.left) == "file.parent"
+                and isinstance(e.right, ast.Constant) and isinstance(e.right.value, str)):
+            return e.right.value
+        fail(e, "monitor: path is not file.parent / <constant name>")
+    env = {}
+
+    def path(e):
+        if isinstance(e, ast.Name) and e.id in env:
+            return env[e.id]
+        return sibling(e)
+    ops, tmp_name, peak_name = [], None, None
+    for st in body:
+        if isinstance(st, ast.Assign) and len(st.targets) == 1 and isinstance(st.targets[0], ast.Name):
+            env[st.targets[0].id] = sibling(st.value)
+        elif isinstance(st, ast.With):
+            if len(st.items) != 1:
+                fail(st, "monitor: with-statement with several items")
+            call, var = st.items[0].context_expr, st.items[0].optional_vars
+            if not (isinstance(call, ast.Call) and ast.unparse(call.func) == "open" and len(call.args) == 1
+                    and isinstance(var, ast.Name)):
+                fail(st, "monitor: with-statement is not `with open(path, ...) as f`")
+            kw = {k.arg: ast.unparse(k.value) for k in call.keywords}
+            if kw.get("mode") != "'w'" or set(kw) - {"mode", "encoding"}:
+                fail(st, "monitor: the temporary file is not opened with mode='w'")
+            if tmp_name is not None:
+                fail(st, "monitor: more than one file is opened in the update")
+            tmp_name = path(call.args[0])
+            ops.append("WOpen")
+            f = var.id
+            for inner in st.body:
+                s = ast.unparse(inner)
+                if s == f"{f}.write(f'{{max_rss_gib}}\\n')":
+                    ops.append("WWrite v")
+                elif s == f"{f}.flush()":
+                    ops.append("WFlush")
+                elif s == f"os.fsync({f}.fileno())":
+                    ops.append("WFsync")
+                else:
+                    fail(inner, "monitor: statement inside the write block")
+            ops.append("WClose")
+        elif isinstance(st, ast.Expr) and isinstance(st.value, ast.Call) and ast.unparse(st.value.func) == "os.replace":
+            a = st.value.args
+            if len(a) != 2 or st.value.keywords or tmp_name is None or path(a[0]) != tmp_name:
+                fail(st, "monitor: os.replace does not move the temporary file just written")
+            if peak_name is not None:
+                fail(st, "monitor: the peak file is replaced twice")
+            peak_name = path(a[1])
+            ops.append("WReplace")
+        else:
+            fail(st, "monitor: statement in the update block outside the recognised shapes")
+    if tmp_name is None or peak_name is None:
+        raise Unsupported("monitor: the update does not write a temporary file and move it onto the peak file")
+    # the reader
+    rd = find_func(tree, "get_peak_memory_gib")
+    rsrc = [ast.unparse(s) for s in rd.body]
+    want = ["file = out_dir / 'NAME'", "if not file.exists():\n    return None",
+            "with open(file, mode='r', encoding='utf-8') as f:\n    peak_mem_gib = float(f.read().strip())",
+            "return peak_mem_gib"]
+    m = None
+    if len(rsrc) == 4 and isinstance(rd.body[0], ast.Assign):
+        v = rd.body[0].value
+        if (isinstance(v, ast.BinOp) and isinstance(v.op, ast.Div) and ast.unparse(v.left) == "out_dir"
+                and isinstance(v.right, ast.Constant) and isinstance(v.right.value, str)):
+            m = v.right.value
+    if m is None or rsrc[1:] != want[1:]:
+        raise Unsupported("get_peak_memory_gib: not `file = out_dir / name; if not exists: None; open; float(read)`")
+    hdr = ("(* GENERATED by /verif/translator/py2coq.py from bblean/_memory.py (monitor_rss_process, "
+           "get_peak_memory_gib) — do not edit. *)\nFrom BB Require Import Model.Monitor.\n"
+           "From Coq Require Import String List.\nImport ListNotations.\n")
+    q = lambda s: '"' + s.replace('"', '""') + '"%string'
+    return (hdr + "\nDefinition monitor_update_ops (v : PrimFloat.float) : list wop :=\n  ["
+            + "; ".join(ops) + "].\n"
+            + f"Definition monitor_tmp_name : string := {q(tmp_name)}.\n"
+            + f"Definition monitor_peak_name : string := {q(peak_name)}.\n"
+            + f"Definition reader_file_name : string := {q(m)}.\n"
+            + "(* the reader: exists() test, then open, then parse of the whole content *)\n"
+            + "Definition reader_steps : list string := [\"exists\"%string; \"open\"%string; \"read\"%string].\n")
+
+
 def gen_mem():
     """bblean/_memory.py: _ArrayMemPagesManager.should_release_curr_page /
     release_curr_page_and_update_addr (the madvise call is recorded as an effect)."""
@@ -1482,6 +1582,7 @@ def main():
         attempt("GMerges", lambda: (_ for _ in ()).throw(Unsupported("GSim failed")))
     attempt("GMem", gen_mem)
     attempt("GMon", lambda: HEADER.format(src="bblean/_memory.py (monitor_rss_process)") + "\n" + gen_monitor_cond() + "\n")
+    attempt("GMonOps", gen_monitor_ops)
     attempt("GUtil", gen_util)
     attempt("GMr", gen_mr)
     attempt("GMrDel", gen_mr_del)
